@@ -1,6 +1,7 @@
 import PiqpProofs.Basic
 import PiqpModel.Api
 import PiqpProofs.Properties.C13
+import Mathlib.Tactic.SplitIfs
 
 /-!
 # C10 — the answer does not depend on back end, KKT formulation or storage of P
@@ -87,4 +88,142 @@ theorem backends_agree_exact (be1 be2 : Backend) (st1 st2 : KKTSettings K) (d : 
   exact ⟨key, fun hinj => hinj _ _ key⟩
 
 end agree
+end Piqp.C10
+
+namespace Piqp.C10
+set_option linter.unusedSectionVars false
+set_option linter.unusedSimpArgs false
+set_option linter.unusedVariables false
+section api
+variable {K : Type}
+variable [Add K] [Sub K] [Mul K] [Div K] [Neg K] [Zero K] [One K] [LT K] [DecidableLT K] [LE K] [DecidableLE K]
+variable [NatCast K] [BEq K] [Inhabited K]
+
+/-- `P` with other entries: same shape, arbitrary content -/
+def withEnt (P : RawMat K) (ent : Array (Option K)) : RawMat K := { P with ent := ent }
+
+/-- the two arguments agree on and above the diagonal (values and storedness) -/
+def UpperAgree (P : RawMat K) (ent : Array (Option K)) : Prop :=
+  ∀ i j : Nat, i ≤ j → j < P.cols → P.get i j = (withEnt P ent).get i j
+
+theorem toMat_upper (P : RawMat K) (ent : Array (Option K)) (h : UpperAgree P ent) (hsq : P.cols = P.rows) :
+    upperOfMat (P.toMat P.rows P.rows) = upperOfMat ((withEnt P ent).toMat P.rows P.rows) := by
+  apply upperOfMat_reads_upper_only
+  intro i j hij
+  simp only [RawMat.toMat, Mat.ofFn, Fin.getElem_fin, Vector.getElem_ofFn]
+  rw [h i.val j.val hij (by rw [hsq]; exact j.isLt)]
+
+theorem upperMask_upper (P : RawMat K) (ent : Array (Option K)) (h : UpperAgree P ent) :
+    upperMask P = upperMask (withEnt P ent) := by
+  unfold upperMask
+  show Array.ofFn _ = Array.ofFn (n := P.rows * P.cols) _
+  congr 1
+  funext k
+  simp only [withEnt]
+  by_cases hle : k.val / P.cols ≤ k.val % P.cols
+  · have hc : 0 < P.cols := by
+      rcases Nat.eq_zero_or_pos P.cols with h0 | h0
+      · have hk : k.val < P.rows * P.cols := k.isLt
+        have : P.rows * P.cols = 0 := by rw [h0]; exact Nat.mul_zero _
+        omega
+      · exact h0
+    have := h (k.val / P.cols) (k.val % P.cols) hle (Nat.mod_lt _ hc)
+    simp only [RawMat.stored, this, withEnt]
+    rfl
+  · simp [hle]
+
+variable (cs : Consts K) (sqrtF : K → K) (poison : K)
+
+theorem setupTyped_congr_P {n p m : Nat} (hn : 0 < n) (be : Backend) (pk : PrecKind) (st : Settings K) (prevInfo : Info K)
+    (P P' : Mat K n n) (c : Vec K n) (AT : Mat K n p) (b : Vec K p) (GT : Mat K n m) (h : Option (Vec K m))
+    (xlb xub : Option (Vec K n)) (hP : upperOfMat P = upperOfMat P') :
+    setupTyped cs sqrtF poison hn be pk st prevInfo P c AT b GT h xlb xub =
+    setupTyped cs sqrtF poison hn be pk st prevInfo P' c AT b GT h xlb xub := by
+  unfold setupTyped setupRaw
+  simp only [hP]
+
+/-- **C10, storage of `P` at `setup`**: whatever the caller stores strictly below the diagonal of `P` (nothing, the
+    symmetric values, garbage), every back end reaches the same state. -/
+theorem setup_lower_triangle_irrelevant (st : ApiState K) (be : Backend) (pk : PrecKind) (P : RawMat K) (ent : Array (Option K))
+    (c : RawVec K) (A : Option (RawMat K)) (b : Option (RawVec K)) (G : Option (RawMat K)) (h : Option (RawVec K))
+    (xlb xub : Option (RawVec K)) (hu : UpperAgree P ent) :
+    apiStep cs sqrtF poison st (.setup be pk P c A b G h xlb xub) =
+    apiStep cs sqrtF poison st (.setup be pk (withEnt P ent) c A b G h xlb xub) := by
+  simp only [apiStep]
+  have hval : validateSetup (withEnt P ent) c A b G h xlb xub = validateSetup P c A b G h xlb xub := rfl
+  rw [hval]
+  cases hv : validateSetup P c A b G h xlb xub with
+  | some msg => rfl
+  | none =>
+    simp only
+    have hsq : P.cols = P.rows := by
+      unfold validateSetup at hv
+      simp only at hv
+      split_ifs at hv with h1
+      exact Classical.not_not.mp h1
+    by_cases hn : 0 < P.rows
+    · have hn' : 0 < (withEnt P ent).rows := hn
+      simp only [hn, hn', dite_true]
+      rw [← upperMask_upper P ent hu]
+      simp only [withEnt] at *
+      rw [setupTyped_congr_P cs sqrtF poison hn be pk st.settings _ _ _ _ _ _ _ _ _ _ (toMat_upper P ent hu hsq)]
+      rfl
+    · have hn' : ¬ 0 < (withEnt P ent).rows := hn
+      simp only [hn, hn', dite_false]
+
+theorem orElse_none_left {α : Type} {x y : Option α} (h : (x <|> y) = none) : x = none := by
+  cases x with
+  | none => rfl
+  | some v => cases h
+
+theorem validateUpdate_dims (a : AnySolver K) (P : RawMat K) (c : Option (RawVec K))
+    (A : Option (RawMat K)) (b : Option (RawVec K)) (G : Option (RawMat K)) (h : Option (RawVec K))
+    (xlb xub : Option (RawVec K)) (hv : validateUpdate a false (some P) c A b G h xlb xub = none) :
+    P.rows = a.n ∧ P.cols = a.n := by
+  unfold validateUpdate at hv
+  simp only at hv
+  have h1 := orElse_none_left hv
+  by_contra hne
+  have hc : (decide (P.rows ≠ a.n) || decide (P.cols ≠ a.n)) = true := by
+    simp only [Bool.or_eq_true, decide_eq_true_eq, ne_eq]
+    by_cases h1 : P.rows = a.n
+    · right; intro h2; exact hne ⟨h1, h2⟩
+    · left; exact h1
+  rw [if_pos hc] at h1
+  cases h1
+
+theorem updateTyped_congr_P {n p m : Nat} (maskP : Array Bool) (s : Solver K n p m)
+    (P P' : Mat K n n) (c : Option (Vec K n)) (A : Option (Mat K p n)) (b : Option (Vec K p))
+    (G : Option (Mat K m n)) (h : Option (Vec K m)) (xlb xub : Option (Vec K n)) (reuse : Bool) (hP : upperOfMat P = upperOfMat P') :
+    updateTyped cs sqrtF false maskP s (some P) c A b G h xlb xub reuse =
+    updateTyped cs sqrtF false maskP s (some P') c A b G h xlb xub reuse := by
+  unfold updateTyped updateRaw
+  simp only [hP, Bool.false_eq_true, if_false, Option.isSome_some]
+
+/-- **C10, storage of `P` at `update` (dense back end)**: the strictly lower triangle of a new `P` is never read. -/
+theorem update_lower_triangle_irrelevant (st : ApiState K) (a : AnySolver K) (hsol : st.sol = some a) (hd : a.s.be.isDense = true)
+    (P : RawMat K) (ent : Array (Option K))
+    (c : Option (RawVec K)) (A : Option (RawMat K)) (b : Option (RawVec K)) (G : Option (RawMat K)) (h : Option (RawVec K))
+    (xlb xub : Option (RawVec K)) (reuse : Bool) (hu : UpperAgree P ent) :
+    apiStep cs sqrtF poison st (.update (some P) c A b G h xlb xub reuse) =
+    apiStep cs sqrtF poison st (.update (some (withEnt P ent)) c A b G h xlb xub reuse) := by
+  simp only [apiStep, hsol, hd, Bool.not_true]
+  have hval : validateUpdate a false (some (withEnt P ent)) c A b G h xlb xub = validateUpdate a false (some P) c A b G h xlb xub := rfl
+  rw [hval]
+  cases hv : validateUpdate a false (some P) c A b G h xlb xub with
+  | some msg => rfl
+  | none =>
+    simp only
+    have hdim : P.rows = a.n ∧ P.cols = a.n := validateUpdate_dims a _ _ _ _ _ _ _ _ hv
+    obtain ⟨n, p, m, hn, s, mP, mA, mG, perm⟩ := a
+    simp only at hdim hd ⊢
+    obtain ⟨h1, h2⟩ := hdim
+    have hsq : P.cols = P.rows := by rw [h1, h2]
+    have hmat : upperOfMat (P.toMat n n) = upperOfMat ((withEnt P ent).toMat n n) := by
+      have := toMat_upper P ent hu hsq
+      rw [h1] at this
+      exact this
+    simp only [optMat, Option.map_some]
+    rw [updateTyped_congr_P cs sqrtF mP s _ _ _ _ _ _ _ _ _ reuse hmat]
+end api
 end Piqp.C10
